@@ -392,6 +392,86 @@ def crun (mutex : Bool) : CS → List (Nat × Nat) → CS
 /-- the start: every thread has its buffers, nobody is inside `Send` -/
 def cinit (q : Nat → List (List Nat)) : CS := { thr := fun i => { todo := q i } }
 
+/-! ### interface-typed fields: kyber points and scalars
+
+A field of type `kyber.Point` / `kyber.Scalar` travels as the value's `MarshalBinary`, preceded by
+the 8-byte `MarshalID` of its dynamic type **iff** a generator is registered for that id
+(protobuf encode.go:259-287).  The receiver instantiates the field with the generator of the tag
+when the first eight bytes are a registered id, and otherwise with the constructor table —
+`DefaultConstructors(suite)` of the *connection's* suite (encoding.go:175, 190-199; protobuf
+decode.go:339-357).  The generators are the ones `encoding.go`'s `init()` registers (20-31). -/
+
+/-- the dynamic Go types behind `kyber.Point` / `kyber.Scalar` that the registered suites produce -/
+inductive Grp where
+  | edP | edS | g1P | g2P | gtP | bnS | p256P | p256S | resP | resS
+  deriving DecidableEq, Repr
+
+inductive Kind where
+  | point | scalar
+  deriving DecidableEq, Repr
+
+/-- the suites `suites.Find` knows (kyber suites/all.go) -/
+inductive SuiteId where
+  | ed25519 | p256 | residue512 | bnG1 | bnG2 | bnGT | bnAdapter
+  deriving DecidableEq, Repr
+
+/-- `suite.Point()` / `suite.Scalar()` -/
+def SuiteId.make : SuiteId → Kind → Grp
+  | .ed25519, .point => .edP | .ed25519, .scalar => .edS
+  | .p256, .point => .p256P | .p256, .scalar => .p256S
+  | .residue512, .point => .resP | .residue512, .scalar => .resS
+  | .bnG1, .point => .g1P | .bnG2, .point => .g2P | .bnGT, .point => .gtP | .bnAdapter, .point => .g2P
+  | .bnG1, .scalar => .bnS | .bnG2, .scalar => .bnS | .bnGT, .scalar => .bnS | .bnAdapter, .scalar => .bnS
+
+/-- `MarshalID()` of the dynamic type (kyber: edwards25519/point.go:27, scalar.go:26,
+bn256/point.go:15-17, mod/int.go:19); the nist points have none. All `mod.Int` scalars — bn256's,
+P256's, Residue512's — share one id: it does not name the modulus. -/
+def Grp.marshalID : Grp → Option (List Nat)
+  | .edP => some [101, 100, 46, 112, 111, 105, 110, 116] /- "ed.point" -/ | .edS => some [101, 100, 46, 115, 99, 97, 108, 97] /- "ed.scala" -/
+  | .g1P => some [98, 110, 50, 53, 54, 46, 103, 49] /- "bn256.g1" -/ | .g2P => some [98, 110, 50, 53, 54, 46, 103, 50] /- "bn256.g2" -/ | .gtP => some [98, 110, 50, 53, 54, 46, 103, 116] /- "bn256.gt" -/
+  | .bnS | .p256S | .resS => some [109, 111, 100, 46, 105, 110, 116, 32] /- "mod.int " -/
+  | .p256P | .resP => none
+
+/-- protobuf's generator registry (interface.go:22-48): id ↦ generator, a later registration of the
+same id replaces the earlier one -/
+abbrev Gens := List (List Nat × Grp)
+
+def Gens.get (gs : Gens) (id : List Nat) : Option Grp := (gs.find? (fun e => e.1 == id)).map (·.2)
+
+def Gens.register (gs : Gens) (g : Grp) : Gens :=
+  match g.marshalID with
+  | some id => (id, g) :: gs
+  | none => gs
+
+/-- `encoding.go` `init()` (20-31), in source order -/
+def initGenerators : List Grp := [.g1P, .bnS, .g2P, .bnS, .gtP, .bnS, .edP, .edS]
+
+def onetGens : Gens := initGenerators.foldl Gens.register []
+
+/-- `DefaultConstructors(suite)` (encoding.go:190-199): a function of its argument and of nothing
+else; no suite, no constructors -/
+def defaultConstructors (suite : Option SuiteId) (k : Kind) : Option Grp := suite.map (·.make k)
+
+/-- the field on the wire (encode.go:259-287): the tag is written only if a generator exists -/
+def encIface (gs : Gens) (mid : Option (List Nat)) (bytes : List Nat) : List Nat :=
+  match mid with
+  | some id => if (gs.get id).isSome then id ++ bytes else bytes
+  | none => bytes
+
+/-- which type instantiates the field and which bytes its `UnmarshalBinary` gets
+(decode.go:339-357); `none` = "no constructor for interface" -/
+def decIface (gs : Gens) (ctor : Option Grp) (vb : List Nat) : Option (Grp × List Nat) :=
+  if 8 < vb.length then
+    match gs.get (vb.take 8) with
+    | some g => some (g, vb.drop 8)
+    | none => ctor.map (·, vb)
+  else ctor.map (·, vb)
+
+/-- a point/scalar of `g`, `n ≥ 1` bytes long, sent in a message and decoded on a connection with
+`suite`: does the field come back as a value of the same dynamic type from the same bytes? -/
+def ifaceSame (gs : Gens) (suite : Option SuiteId) (k : Kind) (g : Grp) (bytes : List Nat) : Bool :=
+  decIface gs (defaultConstructors suite k) (encIface gs g.marshalID bytes) == some (g, bytes)
+
 /-! ### line-protocol driver -/
 namespace Drv
 
@@ -462,6 +542,16 @@ def parseChunks (s : String) : Option (List Nat × Bool) :=
 def live (l : List (Event (List Nat))) : List (Event (List Nat)) :=
   l.filter (fun e => e != .closed .eof)
 
+def parseSuite : String → Option (Option SuiteId)
+  | "nil" => some none
+  | "Ed25519" => some (some .ed25519) | "P256" => some (some .p256) | "Residue512" => some (some .residue512)
+  | "bn256.G1" => some (some .bnG1) | "bn256.G2" => some (some .bnG2) | "bn256.GT" => some (some .bnGT)
+  | "bn256.adapter" => some (some .bnAdapter)
+  | _ => none
+
+def parseKind : String → Option Kind
+  | "point" => some .point | "scalar" => some .scalar | _ => none
+
 /--
 * `cfg <max|gen> <registered type ids> <undecodable buffers>` — limit (`gen` = the constant
   extracted from /repo), registry and decoder tables
@@ -470,6 +560,9 @@ def live (l : List (Event (List Nat))) : List (Event (List Nat)) :=
 * `unm <buffer>` — `Unmarshal`
 * `loop <frames> <tail> <chunks>` — the same stream into `handleConn`; `<chunks>` may be
   `<sizes>~<sizes>`: the sender stalls after the bytes of the first list (see `stalled`)
+* `iface <unm|tcp> <connection suite|nil> <value suite> <point|scalar> <length> <seed>` — a message with
+  one point/scalar of the value suite, marshalled and then unmarshalled with the connection's suite
+  (directly, or sent and received over a pair of `TCPConn`s): `same` / `differs`
 * `send <tcp|local>[/<proxy chunk pattern>] <buffers>` — `Router.Send` of these messages over a live connection and what
   the receiving router does with them
 -/
@@ -501,6 +594,13 @@ def step (s : State) (toks : List String) : State × String :=
       let seen := (wire fr ++ tl).take (ch.foldl (· + ·) 0)
       (s, showEvents (stalled (recvAll cd s.max (cut seen ch))))
     | _, _, _ => (s, "bad-op")
+  | ["iface", _via, su, vs, kd, n, _seed] =>
+    match parseSuite su, parseSuite vs, parseKind kd, n.toNat? with
+    | some su, some (some vs), some kd, some n =>
+      -- the bytes themselves do not matter to the dispatch (they are not a registered tag: an
+      -- assumption the generator checks), only their number does
+      (s, if ifaceSame onetGens su kd (vs.make kd) (List.replicate n 0) then "same" else "differs")
+    | _, _, _, _ => (s, "bad-op")
   | ["send", tr, bufs] =>
     match hexList bufs with
     | some bufs =>
